@@ -167,7 +167,11 @@ def execute(plan):
                 log.count('skipped_partial_list')       # to_python is documented for proper lists only
                 continue
             want = TM.to_py(mt)
-            got = to_python(v)
+            try:
+                got = to_python(v)
+            except Exception as e:
+                log.violation('to_python-raises', {'at': tag, 'variable': i, 'exception': type(e).__name__, 'model': pyj(want)})
+                return False
             if pyj(got) != pyj(want):
                 log.violation('to_python-misses-binding', {'at': tag, 'variable': i, 'engine': pyj(got), 'model': pyj(want)})
                 return False
@@ -175,7 +179,12 @@ def execute(plan):
             if raw_has_variable(val):
                 log.violation('saved-value-contains-variable', {'at': tag, 'saved': desc, 'denoted_at_save': pyj(py)})
                 return False
-            if pyj(to_python(val)) != pyj(py):
+            try:
+                now = to_python(val)
+            except Exception as e:
+                log.violation('to_python-raises', {'at': tag, 'saved': desc, 'exception': type(e).__name__})
+                return False
+            if pyj(now) != pyj(py):
                 log.violation('saved-value-changed', {'at': tag, 'saved': desc, 'denoted_at_save': pyj(py), 'denotes_now': pyj(to_python(val))})
                 return False
         return True
